@@ -911,6 +911,10 @@ func conflictWithReservedListener(proxy *Proxy, push *PushContext, bind string, 
 	if push != nil {
 		conflictWithVirtualListener = int(push.Mesh.ProxyListenPort) == port || int(push.Mesh.ProxyInboundListenPort) == port
 	}
+	// A proxy that terminates HBONE listens on the wildcard address of port 15008 as well (connect_termination).
+	if proxy.Metadata != nil && proxy.EnableHBONEListen() && port == HBoneInboundListenPort {
+		conflictWithVirtualListener = true
+	}
 	return conflictWithStaticListener || conflictWithVirtualListener
 }
 
